@@ -8,6 +8,7 @@ import (
 	"fmt"
 	"runtime"
 	"sort"
+	"strings"
 	"sync"
 	"testing"
 	"time"
@@ -485,27 +486,54 @@ type sin struct {
 	v    int
 }
 
+// The model keeps the iteration order as well: the state is "o" or "u"
+// (order tracked or not) followed by one byte per member - in iteration
+// order for "o", ascending (canonical) for "u".  A Sort* turns the state
+// into "o" + the ascending members; "Final" is the iteration observed by
+// the harness after every goroutine has returned.
+func seqHas(st string, v int) int { return strings.IndexByte(st[1:], byte('0'+v)) }
+
+func seqSorted(m string) string {
+	b := []byte(m)
+	sort.Slice(b, func(i, j int) bool { return b[i] < b[j] })
+	return string(b)
+}
+
 var setModel = porcupine.Model{
-	Init: func() any { return uint16(0) },
+	Init: func() any { return "u" },
 	Step: func(state, input, output any) (bool, any) {
-		st := state.(uint16)
+		st := state.(string)
 		in := input.(sin)
-		bit := uint16(1) << uint(in.v)
+		at := seqHas(st, in.v)
 		switch in.kind {
+		case "Order":
+			return true, "o" + st[1:]
 		case "AddCheck":
-			return output.(bool) == (st&bit != 0), st | bit
-		case "DeleteCheck":
-			return output.(bool) == (st&bit != 0), st &^ bit
-		case "Check":
-			return output.(bool) == (st&bit != 0), st
-		case "Len":
-			n := 0
-			for b := st; b != 0; b &= b - 1 {
-				n++
+			if at >= 0 {
+				return output.(bool), st
 			}
-			return output.(int) == n, st
+			if st[0] == 'o' {
+				return !output.(bool), st + string(byte('0'+in.v))
+			}
+			return !output.(bool), "u" + seqSorted(st[1:]+string(byte('0'+in.v)))
+		case "DeleteCheck":
+			if at < 0 {
+				return !output.(bool), st
+			}
+			return output.(bool), st[:1+at] + st[2+at:]
+		case "Check":
+			return output.(bool) == (at >= 0), st
+		case "Len":
+			return output.(int) == len(st)-1, st
 		case "Synchronize":
 			return true, st
+		case "SortQuick", "SortMerge":
+			return true, "o" + seqSorted(st[1:])
+		case "Final":
+			if st[0] == 'o' {
+				return output.(string) == st[1:], st
+			}
+			return seqSorted(output.(string)) == st[1:], st
 		}
 		return false, st
 	},
@@ -523,10 +551,10 @@ func runConc(t vkit.TB, c *concCase, reps int) (overlaps int) {
 		} else {
 			s.Synchronize()
 		}
-		if c.Ordered {
-			s.Order()
-		}
 		h := &vkit.Hist{}
+		if c.Ordered {
+			h.Call(0, sin{"Order", 0}, func() any { s.Order(); return true })
+		}
 		var wg sync.WaitGroup
 		start := make(chan struct{})
 		for g, ops := range c.Threads {
@@ -545,6 +573,18 @@ func runConc(t vkit.TB, c *concCase, reps int) (overlaps int) {
 						h.Call(g, sin{o.Kind, o.V}, func() any { return s.Check(o.V) })
 					case "Len":
 						h.Call(g, sin{o.Kind, 0}, func() any { return s.Len() })
+					case "SortQuick":
+						// the comparison gives way now and then, so that
+						// a sort is in progress for a while
+						h.Call(g, sin{o.Kind, 0}, func() any {
+							s.SortQuick(func(a, b int) bool { vkit.Yield(o.Yield); return a < b })
+							return true
+						})
+					case "SortMerge":
+						h.Call(g, sin{o.Kind, 0}, func() any {
+							s.SortMerge(func(a, b int) bool { vkit.Yield(o.Yield); return a < b })
+							return true
+						})
 					case "Synchronize":
 						// "safe to call more than once": changes nothing
 						h.Call(g, sin{o.Kind, 0}, func() any { s.Synchronize(); return true })
@@ -575,8 +615,20 @@ func runConc(t vkit.TB, c *concCase, reps int) (overlaps int) {
 				vkit.Fail(t, tConc, "C18:set/own-lock", c, "Check has not returned %v after the caller released the mutex given to WithLock", vkit.Limit())
 			}
 		}
+		// the iteration once everything has returned is part of the
+		// history: membership and - where the order is tracked (an
+		// ordered set, or any set after a Sort*) - the order have to
+		// be those of the linearization
+		overlaps += vkit.Overlaps(h.Ops())
+		h.Call(0, sin{"Final", 0}, func() any {
+			got, _ := iterate(s)
+			b := make([]byte, len(got))
+			for i, v := range got {
+				b[i] = byte('0' + v)
+			}
+			return string(b)
+		})
 		ops := h.Ops()
-		overlaps += vkit.Overlaps(ops)
 		ok, unknown := vkit.Linearizable(setModel, ops)
 		if unknown {
 			vkit.Class(tConc, "checker-timeout")
@@ -623,12 +675,20 @@ func TestSetLinearizable(t *testing.T) {
 		}
 		ng := rapid.IntRange(2, 4).Draw(t, "goroutines")
 		dom := rapid.IntRange(1, 3).Draw(t, "domain")
+		kinds := []string{"AddCheck", "AddCheck", "AddCheck", "DeleteCheck", "DeleteCheck", "DeleteCheck", "Check", "Len", "Synchronize"}
+		sorts := rapid.IntRange(0, 2).Draw(t, "sorts") == 0
+		if sorts {
+			// cases with Sort* calls beside the mutations: more
+			// members, so that a sort takes a few comparisons
+			dom = rapid.IntRange(3, 6).Draw(t, "domainSorted")
+			kinds = []string{"AddCheck", "AddCheck", "AddCheck", "AddCheck", "DeleteCheck", "DeleteCheck", "Check", "Len", "SortQuick", "SortMerge"}
+		}
 		for g := 0; g < ng; g++ {
 			n := rapid.IntRange(1, 6).Draw(t, "nops")
 			var ops []cop
 			for i := 0; i < n; i++ {
 				ops = append(ops, cop{
-					Kind:  rapid.SampledFrom([]string{"AddCheck", "AddCheck", "AddCheck", "DeleteCheck", "DeleteCheck", "DeleteCheck", "Check", "Len", "Synchronize"}).Draw(t, "kind"),
+					Kind:  rapid.SampledFrom(kinds).Draw(t, "kind"),
 					V:     rapid.IntRange(0, dom-1).Draw(t, "v"),
 					Yield: rapid.IntRange(0, 4).Draw(t, "yield"),
 				})
@@ -636,6 +696,6 @@ func TestSetLinearizable(t *testing.T) {
 			c.Threads = append(c.Threads, ops)
 		}
 		ov := runConc(t, c, reps)
-		vkit.CaseN(tConc, vkit.Hash(*c), reps, ov > 0, []string{fmt.Sprintf("goroutines=%d", ng), fmt.Sprintf("overlap=%v", ov > 0), fmt.Sprintf("own-lock=%v", c.OwnLock)}, func() any { return *c })
+		vkit.CaseN(tConc, vkit.Hash(*c), reps, ov > 0, []string{fmt.Sprintf("goroutines=%d", ng), fmt.Sprintf("overlap=%v", ov > 0), fmt.Sprintf("own-lock=%v", c.OwnLock), fmt.Sprintf("sorts=%v", sorts)}, func() any { return *c })
 	})
 }
